@@ -18,7 +18,7 @@ FUNCS = ("sum", "mean", "min", "max", "first", "last", "count", "size")
 
 def cases(tier, seed):
     out = []
-    N, G = (4, 2) if tier == "quick" else (6, 3)
+    N, G = (4, 2) if tier == "quick" else (5, 2)
     for f in FUNCS:
         for mk in ("none", "bool_sym"):
             for dt in (("float64", "int64") if f in ("sum", "max", "first") else ("float64",)):
@@ -31,6 +31,12 @@ def cases(tier, seed):
                          "witness": f == "sum" and mk == "none"}
                     c["name"] = f"GroupBy.{f}(transform=True)/float64/{rep} {'+'.join(map(str, lengths))}/G={G}/mask={mk}"
                     out.append(c)
+    if tier == "thorough":
+        for f in FUNCS:
+            for rep in ("contiguous", "chunked+pointers"):
+                c = {"func": f, "N": 4, "G": 3, "mask": {"kind": "none"}, "dtype": "float64", "rep": rep, "lengths": [2, 2]}
+                c["name"] = f"GroupBy.{f}(transform=True)/float64/{rep} 2+2/N=4,G=3/mask=none"
+                out.append(c)
     return out
 
 
@@ -201,7 +207,7 @@ def replay(case, conc, cand=None):
 
 
 META = {
-    "bounds": {"quick": {"N": 4, "G": 2, "key_chunks": 2}, "thorough": {"N": 6, "G": 3, "key_chunks": "<= 3"}},
+    "bounds": {"quick": {"N": 4, "G": 2, "key_chunks": 2}, "thorough": {"N": 5, "G": 2, "key_chunks": "<= 3", "extra": "N=4,G=3 with 2 chunks"}},
     "enumerated": ["reduction", "key representation (contiguous, chunked with pointer tables, chunked after unification) and chunk layout", "mask present or not"],
     "symbolic": ["group codes / chunk-local codes and pointer tables", "values and null flags", "mask bits"],
     "assumptions": ["the real GroupBy._apply_gb_reduction(transform=True) runs on a directly constructed instance; _preprocess_arguments and "
